@@ -41,11 +41,21 @@ for case in range(N):
     k = rnd.randint(0, 60 if rnd.random() < 0.2 else 8)
     prefixes = rnd.sample(['r_', 'lat_int_', '', 'a_b_', '_', 'x_'], rnd.randint(1, 3))
     ids = []
-    for _ in range(k):
-        p = rnd.choice(prefixes)
-        v = rnd.choice([rnd.randint(0, 30), rnd.randint(0, 99999)])
-        w = rnd.choice([4, 4, 4, 1, 2, 5, 0])
-        ids.append(p + (str(v).zfill(w) if w else str(v)))
+    if case % 2:
+        # dense collections: few distinct numbers drawn with replacement from a short span (duplicates around gaps), one width
+        k = rnd.randint(2, 24)
+        for p in prefixes:
+            lo = rnd.randint(0, 40)
+            span = rnd.randint(1, 8)
+            pool = rnd.sample(range(lo, lo + span + 1), rnd.randint(1, min(span + 1, 5)))
+            ids += [p + str(rnd.choice(pool)).zfill(4) for _ in range(rnd.randint(1, k))]
+        rnd.shuffle(ids)
+    else:
+        for _ in range(k):
+            p = rnd.choice(prefixes)
+            v = rnd.choice([rnd.randint(0, 30), rnd.randint(0, 99999)])
+            w = rnd.choice([4, 4, 4, 1, 2, 5, 0])
+            ids.append(p + (str(v).zfill(w) if w else str(v)))
     objs = []
     for x in ids:
         r = rnd.random()
